@@ -237,3 +237,61 @@ fn k_wire_something__proceed() {
   assert!(l2.is(&[EV_E | 4]), "wire.something: error(e).proceed() must deliver the same error payload as its only event");
   kani::cover!(true, "harness reaches its end");
 }
+
+// amb: once an input has won, a loser that tries to emit is not delivered and finds itself unsubscribed at the latest then (C06)
+#[kani::proof]
+#[kani::unwind(4)]
+fn k_wire_amb__losers_are_unsubscribed_when_they_next_emit() {
+  let sa: &'static Slot<Observer<'static, u8>> = Slot::new();
+  let sb: &'static Slot<Observer<'static, u8>> = Slot::new();
+  let sc: &'static Slot<Observer<'static, u8>> = Slot::new();
+  let log = Log::new();
+  let _s = hot(sa).amb(&[hot(sb), hot(sc)]).subscribe(
+    move |x: u8| log.push(EV_N | x as u32),
+    move |e: RxError| log.push(EV_E | err_id(&e)),
+    move || log.push(EV_C),
+  );
+  let (b1, a1, c1, b2): (u8, u8, u8, u8) = (kani::any(), kani::any(), kani::any(), kani::any());
+  sb.get().unwrap().next(b1); // an argument wins
+  sa.get().unwrap().next(a1); // the receiver (a loser) tries to emit
+  assert!(!sa.get().unwrap().is_subscribed(), "wire.amb.losers: the losing receiver is still subscribed after it tried to emit");
+  sc.get().unwrap().next(c1);
+  assert!(!sc.get().unwrap().is_subscribed(), "wire.amb.losers: a losing argument is still subscribed after it tried to emit");
+  sb.get().unwrap().next(b2);
+  assert!(log.is(&[EV_N | b1 as u32, EV_N | b2 as u32]), "wire.amb: only the winner's items are delivered");
+  kani::cover!(true, "harness reaches its end");
+}
+
+// from_iter over an iterator that counts how often it is pulled: after the subscription has ended (take(3)) the producer stops
+// pulling (an endless iterator would otherwise never return)
+#[derive(Clone)]
+struct CountingIter {
+  n: u8,
+  pulls: &'static Log,
+}
+impl Iterator for CountingIter {
+  type Item = u8;
+  fn next(&mut self) -> Option<u8> {
+    self.pulls.push(1);
+    if self.n < 8 {
+      self.n += 1;
+      Some(self.n)
+    } else {
+      None
+    }
+  }
+}
+#[kani::proof]
+#[kani::unwind(10)]
+fn k_wire_from_iter__stops_pulling_after_the_subscription_ended() {
+  let pulls = Log::new();
+  let log = Log::new();
+  let _s = observables::from_iter(CountingIter { n: 0, pulls }).take(3).subscribe(
+    move |x: u8| log.push(EV_N | x as u32),
+    move |e: RxError| log.push(EV_E | err_id(&e)),
+    move || log.push(EV_C),
+  );
+  assert!(log.is(&[EV_N | 1, EV_N | 2, EV_N | 3, EV_C]), "wire.from_iter: trace differs from the first three elements then complete");
+  assert!(pulls.len() <= 4, "wire.from_iter.stops: the iterator was pulled again after the subscription had ended");
+  kani::cover!(true, "harness reaches its end");
+}
